@@ -67,13 +67,13 @@ theorem C11_vecAggregate_sum :
 
 /-- count is the group size -/
 theorem C11_vecAggregate_count :
-    ∀ (vs : List Val), vecAggregate VecOp.count vs = Val.q ↑vs.length :=
+    ∀ (vs : List Val), vecAggregate VecOp.count vs = Val.q (↑vs.length : Rat) :=
   @vecAggregate_count
 
 /-- the running mean is the arithmetic mean -/
 theorem C11_avgVal_rats :
     ∀ (rs : List Rat),
-      rs ≠ [] → avgVal (List.map Val.q rs) = Val.q (List.foldl (fun (x1 x2 : Rat) => x1 + x2) 0 rs / ↑rs.length) :=
+      rs ≠ [] → avgVal (List.map Val.q rs) = Val.q (List.foldl (fun (x1 x2 : Rat) => x1 + x2) 0 rs / (↑rs.length : Rat)) :=
   @avgVal_rats
 
 /-- Welford's update is the population variance -/
@@ -81,7 +81,9 @@ theorem C11_stdvarVal_rats :
     ∀ (rs : List Rat),
       rs ≠ [] →
         stdvarVal (List.map Val.q rs) =
-          Val.q ((List.map (fun (x : Rat) => (x - rs.sum / ↑rs.length) * (x - rs.sum / ↑rs.length)) rs).sum / ↑rs.length) :=
+          Val.q
+            ((List.map (fun (x : Rat) => (x - rs.sum / (↑rs.length : Rat)) * (x - rs.sum / (↑rs.length : Rat))) rs).sum /
+              (↑rs.length : Rat)) :=
   @stdvarVal_rats
 
 /-- sorting keeps every series (labels intact) -/
@@ -100,7 +102,7 @@ theorem C11_topk_spec :
     ∀ (k : Nat),
       0 < k →
         ∀ (g : Option Grouping) (s : Step),
-          (vecStep VecOp.topk (some ↑k) g s).samples =
+          (vecStep VecOp.topk (some (↑k : Int)) g s).samples =
             List.flatMap
               (fun (grp : AggLabels × List Sample) => List.take k (sortSamples (fun (a b : Val) => b.lt a) grp.snd))
               (groupBySet (fun (x : Sample) => applyGrouping g (fun (a : AggLabels) => a.by []) x.set) s.samples) :=
@@ -111,7 +113,7 @@ theorem C11_bottomk_spec :
     ∀ (k : Nat),
       0 < k →
         ∀ (g : Option Grouping) (s : Step),
-          (vecStep VecOp.bottomk (some ↑k) g s).samples =
+          (vecStep VecOp.bottomk (some (↑k : Int)) g s).samples =
             List.flatMap (fun (grp : AggLabels × List Sample) => List.take k (sortSamples Val.lt grp.snd))
               (groupBySet (fun (x : Sample) => applyGrouping g (fun (a : AggLabels) => a.by []) x.set) s.samples) :=
   @bottomk_spec
@@ -120,7 +122,8 @@ theorem C11_bottomk_spec :
 theorem C11_topk_subset :
     ∀ (k : Nat),
       0 < k →
-        ∀ (g : Option Grouping) (s : Step) (x : Sample), x ∈ (vecStep VecOp.topk (some ↑k) g s).samples → x ∈ s.samples :=
+        ∀ (g : Option Grouping) (s : Step) (x : Sample),
+          x ∈ (vecStep VecOp.topk (some (↑k : Int)) g s).samples → x ∈ s.samples :=
   @topk_subset
 
 /-- **C11 (sort)**: all series ordered by value -/
